@@ -376,7 +376,9 @@ class HdlcFrameReader(MeterReaderBase[HdlcFrame]):
 
         elif len(self._frame) == 0:
             # Found new flag sequence. Two is normal ( end + start), one is allowed, and many possible if time fill.
-            pass
+            # An escape octet received since the previous flag belongs to an aborted (empty) frame.
+            self._unescape_next = False
+            self._raw_frame_data.clear()
 
         elif self._frame.header.header_check_sequence is None:
             # Frames which are too short are silently discarded, and not counted as a FCS error.
